@@ -653,4 +653,43 @@ theorem head_sortDesc_of_max {l : List (List Nat)} {n : List Nat} (hn : n ∈ l)
       · exact hxn
       · rw [hmax x hxl hxn] at h1; cases h1
 
+/-! ### the template split -/
+
+theorem splitLast_eq_none {c : Nat} {l : List Nat} (h : splitLast c l = none) : c ∉ l := by
+  induction l with
+  | nil => simp
+  | cons x xs ih =>
+    simp only [splitLast] at h
+    cases hs : splitLast c xs with
+    | some ba => simp [hs] at h
+    | none =>
+      simp only [hs] at h
+      by_cases hx : x = c
+      · simp [hx] at h
+      · intro hm
+        rcases List.mem_cons.mp hm with e | hm
+        · exact hx e.symm
+        · exact ih hs hm
+
+theorem splitLast_eq_some {c : Nat} {l b a : List Nat} (h : splitLast c l = some (b, a)) :
+    l = b ++ c :: a ∧ c ∉ a := by
+  induction l generalizing b with
+  | nil => simp [splitLast] at h
+  | cons x xs ih =>
+    simp only [splitLast] at h
+    cases hs : splitLast c xs with
+    | some ba =>
+      obtain ⟨b', a'⟩ := ba
+      simp only [hs, Option.some.injEq, Prod.mk.injEq] at h
+      obtain ⟨rfl, rfl⟩ := h
+      obtain ⟨e1, e2⟩ := ih hs
+      exact ⟨by rw [e1]; simp, e2⟩
+    | none =>
+      simp only [hs] at h
+      by_cases hx : x = c
+      · simp only [hx, if_true, Option.some.injEq, Prod.mk.injEq] at h
+        obtain ⟨rfl, rfl⟩ := h
+        exact ⟨by simp [hx], splitLast_eq_none hs⟩
+      · simp [hx] at h
+
 end EmitModel.FileSet
